@@ -26,6 +26,7 @@
 //   FEAT <signature> <count>          distinct input/format classes actually exercised
 //   FAIL <key> in=<input> got=<hex64> want=<hex64> [min=<minimal literal>]    (first few per key)
 //   FAILCOUNT <key> <n>
+//   UNMINIMISED <n>                   failing parser inputs beyond the first 64 of their fine class (not keyed)
 //   SAMPLE <first few inputs and what came out>
 // Exit status: 0 the sweep ran (failures are lines, not exit codes); 2 usage; 3 locale not active.
 //
@@ -84,6 +85,7 @@ struct Rng {
 // ---------------------------------------------------------------------------------------------
 
 static uint64_t n_checked = 0;
+static uint64_t n_unminimised = 0;
 static std::map<std::string, uint64_t> feats;
 static std::map<std::string, uint64_t> failcount;
 static std::map<std::string, std::vector<std::string> > failsamples;
@@ -492,6 +494,14 @@ static void check_parse(const std::string &s, const char *stratum) {
       }
     }
     if (wf) {
+      // minimisation is the expensive part (hundreds of conversions of possibly very long strings): do it for
+      // the first 64 failures of every fine input class only; the rest are counted, not keyed
+      static std::map<std::string, unsigned> per_class;
+      std::string fine = lit_form(l) + "," + v.err + "," + val_class(v.want) + "," + got_class(v.got);
+      if (++per_class[fine] > 64) {
+        ++n_unminimised;
+        return;
+      }
       minimal = minimise(l, v);
       Lit m;
       parse_lit(minimal.c_str(), m);
@@ -733,6 +743,7 @@ static void run_lit() {
 
 static void report() {
   printf("N %llu\n", (unsigned long long)n_checked);
+  if (n_unminimised) printf("UNMINIMISED %llu\n", (unsigned long long)n_unminimised);
   for (auto &l : samples) printf("SAMPLE %s\n", l.c_str());
   for (auto &kv : feats) printf("FEAT %s %llu\n", kv.first.c_str(), (unsigned long long)kv.second);
   for (auto &kv : failsamples)
